@@ -171,3 +171,27 @@ mod wrappers {
         assert!(<crate::Directory<S> as Compound>::HOT_RELOADED && <crate::RecursiveDirectory<S> as Compound>::HOT_RELOADED, "directory listings are reloadable whatever their element type");
     }
 }
+
+// ---- C17.K3 — Compound for OnceInitCell loads the seed asset exactly once and starts uninitialised ----------------------------------
+mod compound {
+    use crate::amv::common::{Mem, A, GC, O};
+    use crate::amv::nd;
+    use crate::anycache::CacheExt;
+    use crate::{Compound, OnceInitCell};
+
+    #[kani::proof]
+    #[kani::unwind(10)]
+    pub(crate) fn c17_k3_compound_loads_seed_once() {
+        let c = GC::new(Mem::new(O::Good, O::Good, nd(), nd()));
+        let id: crate::SharedString = "a".into();
+        let cell = match <OnceInitCell<A, u8> as Compound>::load(c._as_any_cache(), &id) { Ok(c) => c, Err(e) => { std::mem::forget(e); panic!("seed load failed") } };
+        assert!(c.src.reads.get() == 1, "C17 the seed asset is loaded exactly once");
+        assert!(cell.get().is_none(), "C17 a freshly loaded cell is uninitialised");
+        let v = *cell.get_or_init(|a| a.0);
+        assert!(v == c.src.data[0][0] && cell.get().is_some(), "C17 the initialiser receives the loaded seed");
+        let cell2 = match <OnceInitCell<Option<A>, u8> as Compound>::load(c._as_any_cache(), &id) { Ok(c) => c, Err(e) => { std::mem::forget(e); panic!("seed load failed") } };
+        let v2 = *cell2.get_or_init(|a| match a.take() { Some(a) => a.0, None => 0 });
+        assert!(v2 == c.src.data[0][0] && c.src.reads.get() == 2, "C17 the Option variant hands the loaded seed over as Some");
+        std::mem::forget(c);
+    }
+}
